@@ -155,10 +155,33 @@ def run_optim(col, name, n, batch_size, validation, prune, restore, stopper, opt
     return inp
 
 
+def batch_index_cases(col):
+    """_generate_batch_indices directly: for every (n, batch size) incl. n // batch_size == 1 with batch_size < n - each call gives
+    n // batch_size disjoint batches of the batch size, and over different keys EVERY observation index gets into some batch (the
+    batches are the leading part of a random permutation, not a fixed subset)"""
+    from liesel.goose import optim
+    for n, bs in ((10, 3), (10, 7), (10, 10), (9, 4), (12, 8), (5, 1)):
+        seen, bad = set(), None
+        for k in range(24):
+            b = np.asarray(optim._generate_batch_indices(jax.random.PRNGKey(k), n, bs))
+            flat = b.ravel().tolist()
+            if b.shape != (n // bs, bs) or len(set(flat)) != len(flat) or not set(flat) <= set(range(n)):
+                bad = f"key {k}: batches {b.tolist()} are not {n // bs} disjoint index sets of size {bs} within range({n})"
+                break
+            seen |= set(flat)
+        if bad is None and seen != set(range(n)):
+            bad = f"observations {sorted(set(range(n)) - seen)} never enter any batch for 24 different keys"
+        col.add(None if bad is None else {"sig": "native::optim::batch_indices", "what": bad, "input": {"n": n, "batch_size": bs}})
+
+
 def bounded(tier, seed):
     import optax
 
     col = util.Collector()
+    try:
+        batch_index_cases(col)
+    except Exception as e:
+        col.add({"sig": f"native::optim::exception::{type(e).__name__}", "what": str(e)[:200], "input": {"scenario": "batch indices"}})
     distinct = stopper_cases(col, tier)
     scen = [
         ("validation+prune", 12, None, True, True, True, Stopper(max_iter=60, patience=5, atol=0.05), optax.adam(0.3)),
